@@ -298,7 +298,13 @@ def run_check(tier: str, seed: int, workers: Any) -> Dict[str, Any]:
         assumptions=[], bounds=dict(budget, n_items=2), describe=lambda u: {'items': u[0][0], 'how': u[0][1]})
     for v in part2['violations']:
         v['features'] = dict(v.get('features', {}), part='workchain')
-    out = runner.merge([part1, part2])
+    tiny = [((('S', (), 'wait'), ('S', (), 'ret')), None), ((('Y1', (), 'ret'),), None)]
+    deep = {'K': 4, 'J': 0} if tier == 'quick' else {'K': 5, 'J': 0}
+    part_deep = runner.run_explorer(
+        factory, (), tiny, deep, seed, workers,
+        rule=f'the two smallest programs with <= {deep["K"]} requests', assumptions=[], bounds=deep,
+        describe=lambda u: programs.describe(u[0]))
+    out = runner.merge([part1, part2, part_deep])
     part3 = check_recreated()
     out['coverage']['evaluations'] += part3['n']
     out['coverage']['traces_validated_against_impl'] += part3['n']
